@@ -1,7 +1,13 @@
 ---- MODULE Unroll ----
-(* Design-level model of UnrollSmtEncoding::init_at(0) + unroll (encoding.rs:206-301) for one shared
-   non-state signal x, one input i, two states s1,s2 and one bad-state root b. *)
+(* Design-level model of UnrollSmtEncoding::init_at(0) + unroll (encoding.rs) for one shared
+   non-state signal x, one input i, two states s1,s2 and one bad-state root b.
+   Repaired = FALSE: the encoder as found - all signals used by init expressions are defined in one block BEFORE the
+   step-0 states (a signal that reads a state then uses an undeclared symbol), and a signal used by an init AND a next
+   expression is defined a second time by the first unroll.  TLC reports those configurations (Report).
+   Repaired = TRUE: the encoder after the repair in /repo - an init signal is defined right before the first state whose
+   init expression needs it, and the first unroll skips signals init_at(0) has defined.  Sound is an invariant. *)
 EXTENDS Naturals, Sequences, FiniteSets, TLC
+CONSTANT Repaired
 States == {"s1", "s2"}
 VARIABLES cfg, script, done
 \* cfg: which roots use x, what x reads
@@ -40,15 +46,18 @@ FInit(s)   == s.u.init > 0
 FOther0(s) == (s.u.other > 0 \/ s.input) /\ s.u.init = 0
 FNextOnly(s) == s.u.next > 0 /\ s.u.other = 0 /\ ~s.input
 FOther(s)  == s.u.other > 0 \/ s.input
+S1At0(c) == IF c.init1 THEN [op |-> "define", name |-> At("s1", 0), reads |-> {}]
+                      ELSE [op |-> "declare", name |-> At("s1", 0), reads |-> {}]
+S2At0(c) == IF c.xInit2 THEN [op |-> "define", name |-> At("s2", 0), reads |-> Via(c, 0, TRUE)]
+                        ELSE [op |-> "declare", name |-> At("s2", 0), reads |-> {}]
+\* signals below the init expression of s2 (s1's init is a constant): x, and the input if x reads it
+NeededByS2(c, s) == c.xInit2 /\ (s.n = "x" \/ (s.n = "i" /\ c.xReadsI))
 InitAt0(c) ==
-     DefineSignals(c, 0, FInit)
-  \o << IF c.init1 THEN [op |-> "define", name |-> At("s1", 0), reads |-> {}]
-                   ELSE [op |-> "declare", name |-> At("s1", 0), reads |-> {}],
-        IF c.xInit2 THEN [op |-> "define", name |-> At("s2", 0), reads |-> Via(c, 0, TRUE)]
-                    ELSE [op |-> "declare", name |-> At("s2", 0), reads |-> {}] >>
-  \o DefineSignals(c, 0, FOther0)
+  IF Repaired
+  THEN << S1At0(c) >> \o DefineSignals(c, 0, LAMBDA s : FInit(s) /\ NeededByS2(c, s)) \o << S2At0(c) >> \o DefineSignals(c, 0, FOther0)
+  ELSE DefineSignals(c, 0, FInit) \o << S1At0(c), S2At0(c) >> \o DefineSignals(c, 0, FOther0)
 UnrollFrom(c, p) ==
-     DefineSignals(c, p, FNextOnly)
+     DefineSignals(c, p, LAMBDA s : FNextOnly(s) /\ ~(Repaired /\ p = 0 /\ FInit(s)))
   \o << [op |-> "define", name |-> At("s1", p+1), reads |-> Via(c, p, c.xNext1) \cup {At("s1", p)}],
         [op |-> "define", name |-> At("s2", p+1), reads |-> Via(c, p, c.xNext2) \cup {At("s2", p)}] >>
   \o DefineSignals(c, p+1, FOther)
@@ -60,6 +69,7 @@ BeforeUse(sc) == \A j \in 1..Len(sc) : sc[j].reads \subseteq Names(sc, j-1)
 Available(sc) == \A k \in 0..2 : At("b", k) \in Names(sc, Len(sc)) /\ At("i", k) \in Names(sc, Len(sc))
 Init == cfg \in {c \in Cfgs : Valid(c)} /\ script = Script(cfg) /\ done = FALSE
 Next == ~done /\ done' = TRUE /\ UNCHANGED <<cfg, script>>
+Sound == OnceOnly(script) /\ BeforeUse(script) /\ Available(script)
 Report == LET o == OnceOnly(script) b == BeforeUse(script) a == Available(script) IN
           (~o \/ ~b \/ ~a) => PrintT(<<"BADCFG", [once |-> o, beforeUse |-> b, avail |-> a], UsesX(cfg), cfg>>)
 ====
